@@ -65,6 +65,7 @@ def obligations(run, visitors, oid_prefix="trace"):
         else:
             run.violation(key, "%s; natively: %s" % (what, m.group(1)[:300]), path)
             run.ob(oid, "fail", note=m.group(1)[:200], **common)
+    bypass_obligations(run, visitors, open(out).read(), wsdir, root, env, oid_prefix)
     if "MarkAndSweepContext" in visitors:
         order_obligation(run, open(out).read(), wsdir, root, env, dump_s)
     if "GlobalSlotRecycler" in visitors:
@@ -75,9 +76,79 @@ def obligations(run, visitors, oid_prefix="trace"):
     run.functions.append("values::closed::{%s}::{push_back, visit_*}, rvals::cycles::BreadthFirstSearchSteelVal{Visitor,ReferenceVisitor2}::visit, rvals::SteelValPointer::from_value (kind tables, MIR)" % ", ".join(sorted(seen)))
 
 
+METHOD_KIND = {"visit_closure": "Closure", "visit_boxed_value": "Boxed", "visit_immutable_vector": "VectorV", "visit_list": "ListV", "visit_pair": "Pair",
+               "visit_hash_map": "HashMapV", "visit_mutable_vector": "MutableVector", "visit_heap_allocated": "HeapAllocated"}
+
+
+def bypass_obligations(run, visitors, mir_text, wsdir, root, env, oid_prefix):
+    """E3d, second table: no visitor can leave a visit method without passing its tracing calls where no sibling can"""
+    t0 = time.time()
+    try:
+        res = p_visit.analyse_bypass(mir_text)
+    except Exception as ex:
+        run.ob("%s-bypass:tables" % oid_prefix, "inconclusive", reason="extraction failed: %s" % str(ex)[-300:], engine="mir-smt")
+        return
+    for r in res:
+        if r["visitor"] not in visitors:
+            continue
+        oid = "%s-bypass:%s" % (oid_prefix, r["visitor"])
+        common = dict(engine="mir-smt/z3", wall_s=round(time.time() - t0, 1), solver_s=round(r["dt"], 3), solver_checks=r["methods"] + 1)
+        run.samples.append({"engine": "mir-smt", "visitor": r["visitor"], "query": "per visit method: exists an acyclic path entry -> return that passes no tracing call and no loop header leading to one (rank-encoded reachability, z3); "
+                            "then: exists a method this visitor can leave that way although no sibling can", "methods": r["methods"], "methods that can be left without tracing": r["can_bypass"]})
+        if r["res"] == "error" or r["methods"] < 12:
+            run.ob(oid, "inconclusive", reason="solver error or only %d visit methods with tracing calls" % r["methods"], **common)
+            continue
+        if r["res"] == "unsat":
+            run.ob(oid, "pass", nonvacuous=True, note="%d visit methods; early exits only where a sibling has one too (%s)" % (r["methods"], ", ".join(r["can_bypass"]) or "none"), **common)
+            continue
+        what = "%s::%s can return without passing any of its tracing calls; no sibling visitor's %s can" % (r["visitor"], r["method"], r["method"])
+        test = "recycler2_replay" if r["visitor"] == "GlobalSlotRecycler" else "trace_replay"
+        kind = METHOD_KIND.get(r["method"], "Closure")
+        try:
+            shutil.copy(os.path.join(ws.VERIF, "harness", "arity_replay.rs"), os.path.join(wsdir, "crates", "steel-core", "tests", "verif_arity_replay.rs"))
+            m = None
+            for tname in ([test, "recycler_replay"] if r["visitor"] == "GlobalSlotRecycler" else [test]):
+                p = subprocess.run(["cargo", "test", "--offline", "-p", "steel-core", "--no-default-features", "--features", ws.FEATURES,
+                                    "--test", "verif_arity_replay", "--target-dir", os.path.join(root, "tn"), "--", tname, "--exact", "--nocapture"],
+                                   cwd=wsdir, env=dict(env, VERIF_TRACE_KIND=kind), capture_output=True, text=True, timeout=2400)
+                m = re.search(r"OBSERVED: (.*)", p.stdout + p.stderr)
+                if m:
+                    test = tname
+                    break
+        except Exception as ex:
+            run.ob(oid, "inconclusive", reason="replay failed: %s" % str(ex)[-300:], **common)
+            continue
+        if not m:
+            run.ob(oid, "inconclusive", reason="solver: %s; not reproduced by the replay program" % what, **common)
+            continue
+        d = os.path.join(ws.VERIF, "replays", run.pid)
+        os.makedirs(d, exist_ok=True)
+        path = os.path.join(d, "bypass_%s_%s.json" % (r["visitor"], r["method"]))
+        json.dump({"property": run.pid, "kind": "bypass", "visitor": r["visitor"], "method": r["method"], "test": test, "value_kind": kind, "observed": m.group(1),
+                   "how": "./check %s --replay <this file>" % run.pid}, open(path, "w"), indent=1)
+        key = "bypass:%s:%s" % (r["visitor"], r["method"])
+        if run.is_known(key):
+            run.known_hit(key, run.known[(run.pid, key)] + " -- " + m.group(1)[:200])
+            run.ob(oid, "known", nonvacuous=True, **common)
+        else:
+            run.violation(key, "%s; natively: %s" % (what, m.group(1)[:300]), path)
+            run.ob(oid, "fail", note=m.group(1)[:200], **common)
+
+
 def replay(pid, payload, path):
     wsdir = ws.prepare("tracereplay", [])
     root = os.path.dirname(wsdir)
+    if payload.get("kind") == "bypass":
+        shutil.copy(os.path.join(ws.VERIF, "harness", "arity_replay.rs"), os.path.join(wsdir, "crates", "steel-core", "tests", "verif_arity_replay.rs"))
+        p = subprocess.run(["cargo", "test", "--offline", "-p", "steel-core", "--no-default-features", "--features", ws.FEATURES,
+                            "--test", "verif_arity_replay", "--target-dir", os.path.join(root, "tn"), "--", payload["test"], "--exact", "--nocapture"],
+                           cwd=wsdir, env=dict(os.environ, VERIF_TRACE_KIND=payload.get("value_kind", "Closure")), capture_output=True, text=True)
+        m = re.search(r"OBSERVED: (.*)", p.stdout + p.stderr)
+        print("observed:", m.group(1) if m else "not reproduced")
+        if m:
+            print("VIOLATION property=%s replay=%s" % (pid, path))
+            return 1
+        return 0
     if payload.get("kind") in ("order", "opscan"):
         shutil.copy(os.path.join(ws.VERIF, "harness", "arity_replay.rs"), os.path.join(wsdir, "crates", "steel-core", "tests", "verif_arity_replay.rs"))
         p = subprocess.run(["cargo", "test", "--offline", "-p", "steel-core", "--no-default-features", "--features", ws.FEATURES,
